@@ -1,0 +1,19 @@
+//go:build verif
+
+package lisp
+
+import (
+	"context"
+
+	"github.com/jig/lisp/types"
+)
+
+// VerifLoopTop, when set by a verification harness, is called at the top of
+// every iteration of the evaluation loop.  Build tag: verif.
+var VerifLoopTop func(ctx context.Context, ast types.MalType, env types.EnvType)
+
+func verifLoopTop(ctx context.Context, ast types.MalType, env types.EnvType) {
+	if h := VerifLoopTop; h != nil {
+		h(ctx, ast, env)
+	}
+}
